@@ -32,6 +32,15 @@ class SegBytes:
       return SegBytes(self.segs + [(lab, builtins.len(other))])
     return NotImplemented
 
+  def extend(self, other):
+    r = self.__add__(other)
+    if r is NotImplemented:
+      raise TypeError('extend with unsupported operand')
+    self.segs = r.segs
+
+  def copy(self):
+    return SegBytes(self.segs)
+
   def __len__(self):
     raise Unsupported('builtin len() on symbolic bytes (module len not rebound)')
 
@@ -54,3 +63,16 @@ def symlen(x):
   if isinstance(x, SegBytes):
     return x.sym_len()
   return builtins.len(x)
+
+
+def symbytearray(x=b''):
+  """Stands in for module-level bytearray(): a mutable copy."""
+  if isinstance(x, SegBytes):
+    return SegBytes(x.segs)
+  return bytearray(x)
+
+
+def symbytes(x=b''):
+  if isinstance(x, SegBytes):
+    return SegBytes(x.segs)
+  return bytes(x)
